@@ -177,6 +177,8 @@ type seqResult struct {
 	Trace      []traceEntry     `json:"trace,omitempty"`
 	Evals      int              `json:"evals"`
 	Fatal      string           `json:"fatal,omitempty"`
+	// AbandonBatch: a goroutine of this sequence could not be stopped (a replicator that spins); the batch ends here
+	AbandonBatch bool `json:"-"`
 }
 
 type driver struct {
@@ -225,6 +227,13 @@ type driver struct {
 	staleAddrCalls   int // calls through a client bound to a connection to an address the follower left
 
 	followerChangedBehindHandshake bool // during the current event
+
+	// two-step history "raced online notification, then a later ordinary offline period": racedOnline names the step
+	// fault (onlineRace | onlineRecheckRace) through which this leader incarnation's replicator went on WITHOUT having
+	// waited for the notification; laterParked: it parked in an offline period that began after that
+	racedOnline  string
+	racedCounted bool
+	laterParked  bool
 
 	// lateAppend (free-running variant) reports whether the message of leader position pos was once delivered on a
 	// stream that died before the follower answered: its append was in flight when the leader reconnected
@@ -452,6 +461,13 @@ func (d *driver) exec(e event) {
 		}
 		if woken {
 			d.count("handshake.woken_by_online_notification", 1)
+			if d.laterParked {
+				d.laterParked = false
+				d.count("lifecycle.later_offline_period_after_raced_online_notification.woken."+d.racedOnline, 1)
+				if ready {
+					d.count("lifecycle.later_offline_period_after_raced_online_notification.woken_and_channel_ready."+d.racedOnline, 1)
+				}
+			}
 			// the parked Prepare ran its handshake now
 			d.afterPrepare(pre, ready, false)
 			d.harvestConnObs()
@@ -626,6 +642,7 @@ func (d *driver) doLeaderRestart(e event) {
 	}
 	w.stopLeader()
 	d.faultSeen, d.hsAfterFault = true, false
+	d.racedOnline, d.laterParked = "", false // a new incarnation has a new replicator
 	if pick != nil {
 		keep := ""
 		if e.Mode == "backcg" {
@@ -762,7 +779,28 @@ func (d *driver) doStep(fault string, pre obs) {
 		d.reportDeadlock(pre)
 		return
 	}
+	if w.spin != nil {
+		d.reportSpin(pre, *w.spin, "")
+		return
+	}
+	if parked && !pre.Parked {
+		// the follower is offline and this Prepare stands in its wait: how often had it been told "not live"?
+		d.count("oracle.offline_prepares_judged_parked_not_spinning", 1)
+		if w.prepPolls > 2 {
+			d.count("oracle.offline_prepares_parked_after_more_than_2_liveness_polls", 1)
+		}
+	}
 	d.afterPrepare(pre, ready, parked)
+	if w.onlineRaceFired {
+		// the node-startup event was processed right after IsReady's first "not live" answer, and IsReady went on
+		w.onlineRaceFired = false
+		d.count("fault.fired.onlineRace", 1)
+		if !parked {
+			d.count("fault.fired.onlineRace.replicator_went_on_without_waiting", 1)
+			d.racedOnline = "onlineRace"
+		}
+		d.faultSeen = true
+	}
 	if ready && !parked {
 		if w.lRep.Pending() > 0 {
 			mid := d.observe()
@@ -788,6 +826,9 @@ func (d *driver) doStep(fault string, pre obs) {
 		d.count("fault.fired.onlineRecheckRace", 1)
 		d.count("fault.fired.onlineRecheckRace.event_completed_and_replicator_went_on", 1)
 		d.faultSeen = true
+		if !parked {
+			d.racedOnline = "onlineRecheckRace"
+		}
 	}
 	if fault != "" && len(fired) == 0 {
 		d.count("fault.armed_but_not_reached", 1)
@@ -818,6 +859,33 @@ func (d *driver) reportDeadlock(pre obs) {
 	d.res.Fatal = "stop: state manager and replicator deadlocked"
 }
 
+// reportSpin: the follower is offline and the replicator neither waits for its online notification nor returns: it keeps
+// asking the state manager (see replicatorSpinning). In a real leader an IsReady that calls itself without blocking ends
+// the process ("goroutine stack exceeds 1000000000-byte limit"); one that loops burns a core until the follower is back.
+func (d *driver) reportSpin(pre obs, so spinObs, where string) {
+	d.upstreamViolated = true
+	d.count("oracle.replicator_spin_detected", 1)
+	class := "C08/no-resync/replicator-spins-instead-of-parking-while-follower-offline"
+	how := fmt.Sprintf("it was told 'not live' %d times in this offline period and is not blocked waiting for the notification (%s)", so.Polls, so.Header)
+	if so.Recursing {
+		class += "/unbounded-recursion-in-IsReady"
+		how = fmt.Sprintf("it was told 'not live' %d times in this offline period, and remoteReplicator.IsReady stands %d times on its goroutine's stack (%s): "+
+			"IsReady calls itself without blocking, which ends the leader process with a stack overflow if the follower stays away", so.Polls, so.IsReadyFrames, so.Header)
+	} else {
+		class += "/polls-liveness-without-blocking"
+	}
+	hist := ""
+	if d.racedOnline != "" {
+		hist = fmt.Sprintf("; earlier in this sequence the replicator went through an offline period in which the node-startup event raced with its liveness checks (%s)", d.racedOnline)
+	}
+	d.violate(class, "%sthe follower is offline and the replicator does not park: %s%s; before: %s", where, how, hist, pre.String())
+	if !so.Released {
+		d.count("oracle.replicator_spin_detected.goroutine_not_released(batch_abandoned)", 1)
+		d.res.AbandonBatch = true
+	}
+	d.res.Fatal = "stop: replicator spins instead of parking"
+}
+
 // afterPrepare classifies the handshake that VerifReplicaPrepare just ran (coverage) and checks what a completed
 // handshake must have established (oracle, computed from the states before and after, not from the code).
 func (d *driver) afterPrepare(pre obs, ready, parked bool) {
@@ -827,6 +895,15 @@ func (d *driver) afterPrepare(pre obs, ready, parked bool) {
 			d.count("handshake.still_parked", 1)
 		} else {
 			d.count("handshake.follower_offline_parked", 1)
+			if d.racedOnline != "" && !d.w.live.Load() {
+				// second step of the two-step history: an ordinary offline period after the raced one, and the replicator parks
+				d.laterParked = true
+				d.count("lifecycle.later_offline_period_after_raced_online_notification.parked."+d.racedOnline, 1)
+				if !d.racedCounted {
+					d.racedCounted = true
+					d.count("lifecycle.sequences_with_later_offline_period_after_raced_online_notification", 1)
+				}
+			}
 		}
 		if d.w.live.Load() && !pre.Parked {
 			// the follower is live and its online notification has been delivered, yet IsReady parked itself
@@ -1412,6 +1489,44 @@ func genSequence(rnd *rand.Rand, idx int, maxLen int) []event {
 				evs = append(evs, event{Kind: "s"})
 			}
 			evs = append(evs, genOnline(rnd), event{Kind: "a", N: 1 + rnd.Intn(2)}, event{Kind: "s"}, event{Kind: "s"})
+		case 5:
+			// two offline periods of the follower. In the first its node-startup event races with the liveness checks of the
+			// handshake (IsReady goes on without having waited for the notification); traffic; then one or two ORDINARY
+			// offline periods the replicator notices (a send over the dead stream fails, the next handshake is told "not
+			// live"): it has to park in each of them, to be woken by the node-startup event and to carry the appends made
+			// meanwhile. Whatever the raced period left behind in the replicator's suspend protocol shows here.
+			n0 := 1 + rnd.Intn(3)
+			evs = append(evs, event{Kind: "a", N: n0 + 1})
+			for i := 0; i < n0; i++ {
+				evs = append(evs, event{Kind: "s"})
+			}
+			race := "onlineRace"
+			if rnd.Intn(2) == 0 {
+				race = "onlineRecheckRace"
+			}
+			evs = append(evs, event{Kind: "off"}, event{Kind: "rst"}, event{Kind: "s"}, event{Kind: "s", Fault: race})
+			for k := rnd.Intn(3); k > 0; k-- {
+				evs = append(evs, event{Kind: "a", N: 1 + rnd.Intn(2)}, event{Kind: "s"})
+				if rnd.Intn(2) == 0 {
+					evs = append(evs, event{Kind: "s"})
+				}
+			}
+			for periods := 1 + rnd.Intn(2); periods > 0; periods-- {
+				// the append makes the next step send over the stream the node failure killed; the step after it handshakes
+				evs = append(evs, event{Kind: "off"}, event{Kind: "a", N: 1 + rnd.Intn(2)}, event{Kind: "s"}, event{Kind: "s"})
+				switch rnd.Intn(4) {
+				case 0:
+					evs = append(evs, event{Kind: "a", N: 1 + rnd.Intn(2)})
+				case 1:
+					evs = append(evs, event{Kind: "s"}) // a step while parked
+				case 2:
+					evs = append(evs, event{Kind: "gc"})
+				}
+				evs = append(evs, event{Kind: "on"}, event{Kind: "a", N: 1 + rnd.Intn(2)}, event{Kind: "s"}, event{Kind: "s"})
+			}
+			if len(evs)+4 > maxLen {
+				maxLen = len(evs) + 4 // a short random tail in any case
+			}
 		}
 	}
 	for len(evs) < maxLen {
